@@ -19,14 +19,25 @@ structure MatchContract (t : Nat) (m : MatcherI) (Mt : Bytes → Nat → Nat →
   C11 harness — but it never jumps over a match; with `noTerm` this is all the fast path needs) -/
   shortest_some : ∀ {hay i}, m.shortestAt hay 0 = some i → ∃ s, Mt hay s i ∧ ∀ s' e', Mt hay s' e' → s ≤ e'
   shortest_none : ∀ {hay}, m.shortestAt hay 0 = none → ∀ s e, ¬ Mt hay s e
-  /-- context independence on a line window `[w, w + c]` of any haystack that passes the window guard `G` -/
-  ctx : ∀ (hay : Bytes) (w c : Nat), G hay w c → (w = 0 ∨ hay[w - 1]? = some t) → (w + c = hay.length ∨ hay[w + c]? = some t) →
+  /-- a match of a line taken alone is a match of every haystack of which the line is a window `[w, w + c]` that
+  passes the guard `G` ("no false negatives": needed on every route) -/
+  lift : ∀ (hay : Bytes) (w c : Nat), G hay w c → (w = 0 ∨ hay[w - 1]? = some t) → (w + c = hay.length ∨ hay[w + c]? = some t) →
     w + c ≤ hay.length → ∀ s e, w ≤ s → s ≤ e → e ≤ w + c →
-    (Mt hay s e ↔ Mt ((hay.drop w).take c) (s - w) (e - w))
+    Mt ((hay.drop w).take c) (s - w) (e - w) → Mt hay s e
+  /-- the converse ("a match found in the haystack inside a line's window is a match of the line alone") is only
+  needed of a matcher that ever answers `Confirmed`; since /repo 4165f41 a pattern whose look-arounds can see beyond
+  the line answers `Candidate` and the searcher judges the line itself -/
+  lower : (∃ hay i, m.findCandidateLine hay = some (.confirmed i)) →
+    ∀ (hay : Bytes) (w c : Nat), G hay w c → (w = 0 ∨ hay[w - 1]? = some t) → (w + c = hay.length ∨ hay[w + c]? = some t) →
+    w + c ≤ hay.length → ∀ s e, w ≤ s → s ≤ e → e ≤ w + c →
+    Mt hay s e → Mt ((hay.drop w).take c) (s - w) (e - w)
   cand_none : ∀ {hay}, m.findCandidateLine hay = none → ∀ s e, ¬ Mt hay s e
   cand_conf : ∀ {hay i}, m.findCandidateLine hay = some (.confirmed i) → m.shortestAt hay 0 = some i
+  /-- a candidate is the end of an occurrence of a prefilter literal (not directly behind a terminator, no terminator
+  between the end of any match and it), or the end of the match the engine reports (to be judged on the line) -/
   cand_cand : ∀ {hay i}, m.findCandidateLine hay = some (.candidate i) →
-    1 ≤ i ∧ i ≤ hay.length ∧ hay[i - 1]? ≠ some t ∧ ∀ s e, Mt hay s e → ∀ x, e ≤ x → x < i → hay[x]? ≠ some t
+    (1 ≤ i ∧ i ≤ hay.length ∧ hay[i - 1]? ≠ some t ∧ ∀ s e, Mt hay s e → ∀ x, e ≤ x → x < i → hay[x]? ≠ some t) ∨
+    m.shortestAt hay 0 = some i
 
 section
 variable {t : Nat} {buf : Bytes} {sl : List SLine}
@@ -294,14 +305,15 @@ theorem lift_match (L : Layout t buf sl) (hlen : buf.length = offsetAt sl sl.len
   have W := window L hlen p j hpj hj
   obtain ⟨hse, hel⟩ := hc.bounds hm
   refine ⟨?_, hse, hel⟩
-  have := hc.ctx (buf.drop (offsetAt sl p)) (offsetAt sl j - offsetAt sl p) (ct t sl j).length (hG p j hpj hj)
+  have := hc.lift (buf.drop (offsetAt sl p)) (offsetAt sl j - offsetAt sl p) (ct t sl j).length (hG p j hpj hj)
     W.before W.after W.le_len
     (s + (offsetAt sl j - offsetAt sl p)) (e + (offsetAt sl j - offsetAt sl p)) (by omega) (by omega) (by omega)
   rw [W.slice_eq, Nat.add_sub_cancel, Nat.add_sub_cancel] at this
-  exact this.2 hm
+  exact this hm
 
 /-- a match of the haystack that stays inside a line's window is a match of the line taken alone -/
 theorem lower_match (L : Layout t buf sl) (hlen : buf.length = offsetAt sl sl.length) (hc : MatchContract t m Mt G)
+    (hconf : ∃ hay i, m.findCandidateLine hay = some (.confirmed i))
     (hG : WinGuard t buf sl G) (p j : Nat) (hpj : p ≤ j) (hj : j < sl.length) {s e : Nat} (hm : Mt (buf.drop (offsetAt sl p)) s e)
     (h1 : offsetAt sl j - offsetAt sl p ≤ s) (h2 : e ≤ offsetAt sl j - offsetAt sl p + (ct t sl j).length) :
     pmLine cfg m sl j = true ∨ cfg.lineTerm ≠ .byte t := by
@@ -309,10 +321,10 @@ theorem lower_match (L : Layout t buf sl) (hlen : buf.length = offsetAt sl sl.le
   · left
     have W := window L hlen p j hpj hj
     obtain ⟨hse, _⟩ := hc.bounds hm
-    have := hc.ctx (buf.drop (offsetAt sl p)) (offsetAt sl j - offsetAt sl p) (ct t sl j).length (hG p j hpj hj)
+    have := hc.lower hconf (buf.drop (offsetAt sl p)) (offsetAt sl j - offsetAt sl p) (ct t sl j).length (hG p j hpj hj)
       W.before W.after W.le_len s e h1 hse h2
     rw [W.slice_eq] at this
-    exact (pmLine_iff hlt hc j).2 ⟨_, _, this.1 hm⟩
+    exact (pmLine_iff hlt hc j).2 ⟨_, _, this hm⟩
   · exact Or.inr hlt
 
 /-- no line in `[p, j)` matches, given that every match of the haystack starts at or after `lo ≥` the window of `j` -/
@@ -336,6 +348,64 @@ theorem no_match_before (L : Layout t buf sl) (hlen : buf.length = offsetAt sl s
   · omega
   · have := hlastterm j' h2 hl2; omega
 
+/-- where the end `i` of the match the engine reports on `buf[start of line p ..]` lies: inside the window of a line `j`
+together with its start (no line before `j` matches), or behind the final terminator (no line matches at all) -/
+theorem shortest_line (L : Layout t buf sl) (hlen : buf.length = offsetAt sl sl.length)
+    (hlt : cfg.lineTerm = .byte t) (hc : MatchContract t m Mt G) (hG : WinGuard t buf sl G) (p : Nat) (hp : p < sl.length)
+    {i : Nat} (hshort : m.shortestAt (buf.drop (offsetAt sl p)) 0 = some i) :
+    (∃ j s, p ≤ j ∧ j < sl.length ∧ InLine cfg.lineTerm.asByte sl j (offsetAt sl p + i) ∧
+        Mt (buf.drop (offsetAt sl p)) s i ∧ offsetAt sl j - offsetAt sl p ≤ s ∧
+        i ≤ offsetAt sl j - offsetAt sl p + (ct t sl j).length ∧
+        ∀ j', p ≤ j' → j' < j → pmLine cfg m sl j' = false) ∨
+    (offsetAt sl p + i = buf.length ∧ Term cfg.lineTerm.asByte (bytesAt sl (sl.length - 1)) ∧
+      ∀ j, p ≤ j → j < sl.length → pmLine cfg m sl j = false) := by
+  have hasb : cfg.lineTerm.asByte = t := by rw [hlt]; rfl
+  obtain ⟨s, hm, hleft⟩ := hc.shortest_some hshort
+  obtain ⟨hsi, hil⟩ := hc.bounds hm
+  rcases pos_window L hlen p s hp (by omega) with ⟨j, hpj, hj, hw1, hw2⟩ | ⟨hse, hterm, hnx⟩
+  · left
+    have W := window L hlen p j hpj hj
+    -- the match cannot run past the end of the line's content
+    have hie : i ≤ offsetAt sl j - offsetAt sl p + (ct t sl j).length := by
+      apply Classical.byContradiction; intro hgt
+      rcases W.after with ha | ha
+      · omega
+      · exact hc.noTerm hm _ hw2 (by omega) ha
+    refine ⟨j, s, hpj, hj, ?_, hm, hw1, hie, ?_⟩
+    · rw [hasb]; exact inLine_of_win L hlen p j i hpj hj (by omega) hie
+    · exact no_match_before L hlen hlt hc hG p j (by omega) (fun j' h1 h2 => by omega)
+        (fun s' e' h' => by
+          -- a match starting before line `j` would end at or after `s` (hleft), hence contain the terminator
+          -- that precedes line `j`
+          have hle := hleft s' e' h'
+          apply Classical.byContradiction; intro hlt'
+          rcases W.before with hb | hb
+          · omega
+          · exact hc.noTerm h' _ (by omega) (by omega) hb)
+  · right
+    have hl : (buf.drop (offsetAt sl p)).length = buf.length - offsetAt sl p := by simp
+    have hpn : offsetAt sl p ≤ buf.length := by rw [hlen]; exact off_mono sl (by omega)
+    refine ⟨by omega, by rw [hasb]; exact hterm, ?_⟩
+    have hnb := no_match_before L hlen hlt hc hG p sl.length (Nat.le_refl _)
+      (fun j' h1 h2 => by
+        have : j' = sl.length - 1 := by omega
+        subst this
+        have e : sl.length - 1 + 1 = sl.length := by omega
+        rw [e]; exact hnx)
+      (fun s' e' h' => by
+        -- a match ending at the very end of a terminated buffer but starting earlier would contain the final terminator
+        have hle := hleft s' e' h'
+        have hb' := hc.bounds h'
+        rw [← hlen]
+        apply Classical.byContradiction; intro hlt'
+        have hjl : sl.length - 1 < sl.length := by omega
+        have W := window L hlen p (sl.length - 1) (by omega) hjl
+        have hpo : offsetAt sl p ≤ offsetAt sl (sl.length - 1) := off_mono sl (by omega)
+        rcases W.after with ha | ha
+        · omega
+        · exact hc.noTerm h' _ (by omega) (by omega) ha)
+    exact fun j h1 h2 => hnb j h1 h2
+
 /-- **the matcher-level contract makes the matcher line safe on every buffer** (one-byte terminator) -/
 theorem lineSafe_of_contract (L : Layout t buf sl) (hlen : buf.length = offsetAt sl sl.length)
     (hlt : cfg.lineTerm = .byte t) (hc : MatchContract t m Mt G) (hG : WinGuard t buf sl G) :
@@ -350,74 +420,39 @@ theorem lineSafe_of_contract (L : Layout t buf sl) (hlen : buf.length = offsetAt
     exact hc.cand_none hnone _ _ (lift_match L hlen hc hG p j hpj hj hm).1
   · -- confirmed
     intro p i hp hconf
-    obtain ⟨s, hm, hleft⟩ := hc.shortest_some (hc.cand_conf hconf)
-    obtain ⟨hsi, hil⟩ := hc.bounds hm
-    rcases pos_window L hlen p s hp (by omega) with ⟨j, hpj, hj, hw1, hw2⟩ | ⟨hse, hterm, hnx⟩
+    rcases shortest_line (cfg := cfg) L hlen hlt hc hG p hp (hc.cand_conf hconf) with
+      ⟨j, s, hpj, hj, hin, hm, hw1, hie, hbefore⟩ | hend
     · left
-      have W := window L hlen p j hpj hj
-      -- the match cannot run past the end of the line's content
-      have hie : i ≤ offsetAt sl j - offsetAt sl p + (ct t sl j).length := by
-        apply Classical.byContradiction; intro hgt
-        rcases W.after with ha | ha
-        · omega
-        · exact hc.noTerm hm _ hw2 (by omega) ha
-      refine ⟨j, hpj, ?_, ?_, ?_⟩
-      · rw [hasb]; exact inLine_of_win L hlen p j i hpj hj (by omega) hie
-      · rcases lower_match (cfg := cfg) L hlen hc hG p j hpj hj hm hw1 hie with h | h
-        · exact h
-        · exact absurd hlt h
-      · exact no_match_before L hlen hlt hc hG p j (by omega) (fun j' h1 h2 => by omega)
-          (fun s' e' h' => by
-            -- a match starting before line `j` would end at or after `s` (hleft), hence contain the terminator
-            -- that precedes line `j`
-            have hle := hleft s' e' h'
-            apply Classical.byContradiction; intro hlt'
-            rcases W.before with hb | hb
-            · omega
-            · exact hc.noTerm h' _ (by omega) (by omega) hb)
-    · right
-      have hl : (buf.drop (offsetAt sl p)).length = buf.length - offsetAt sl p := by simp
-      have hpn : offsetAt sl p ≤ buf.length := by rw [hlen]; exact off_mono sl (by omega)
-      refine ⟨by omega, by rw [hasb]; exact hterm, ?_⟩
-      have hnb := no_match_before L hlen hlt hc hG p sl.length (Nat.le_refl _)
-        (fun j' h1 h2 => by
-          have : j' = sl.length - 1 := by omega
-          subst this
-          have e : sl.length - 1 + 1 = sl.length := by omega
-          rw [e]; exact hnx)
-        (fun s' e' h' => by
-          -- a match ending at the very end of a terminated buffer but starting earlier would contain the final terminator
-          have hle := hleft s' e' h'
-          have hb' := hc.bounds h'
-          rw [← hlen]
-          apply Classical.byContradiction; intro hlt'
-          have hjl : sl.length - 1 < sl.length := by omega
-          have W := window L hlen p (sl.length - 1) (by omega) hjl
-          have hpo : offsetAt sl p ≤ offsetAt sl (sl.length - 1) := off_mono sl (by omega)
-          rcases W.after with ha | ha
-          · omega
-          · exact hc.noTerm h' _ (by omega) (by omega) ha)
-      exact fun j h1 h2 => hnb j h1 h2
+      refine ⟨j, hpj, hin, ?_, hbefore⟩
+      rcases lower_match (cfg := cfg) L hlen hc ⟨_, _, hconf⟩ hG p j hpj hj hm hw1 hie with h | h
+      · exact h
+      · exact absurd hlt h
+    · exact Or.inr hend
   · -- candidate
     intro p i hp hcand
-    obtain ⟨hi1, hil, hnt, hnot⟩ := hc.cand_cand hcand
-    obtain ⟨j, hpj, hj, hw1, hw2⟩ := pos_strict L hlen p (i - 1) (by omega) hnt
-    refine ⟨j, hpj, ?_, ?_⟩
-    · rw [hasb]; exact inLine_of_win L hlen p j i hpj hj (by omega) (by omega)
-    · intro j' h1 h2
-      rw [Bool.eq_false_iff]
-      intro hpm
-      obtain ⟨s, e, hm⟩ := (pmLine_iff hlt hc j').1 hpm
-      obtain ⟨hl, hse, hel⟩ := lift_match L hlen hc hG p j' h1 (by omega) hm
-      have W := window L hlen p j' h1 (by omega)
-      have hpo : offsetAt sl p ≤ offsetAt sl j' := off_mono sl h1
-      have hjj : offsetAt sl (j' + 1) ≤ offsetAt sl j := off_mono sl (by omega)
-      rcases W.next with hn | ⟨hn, hl2⟩
-      · rcases W.after with ha | ha
-        · have hl' : (buf.drop (offsetAt sl p)).length = buf.length - offsetAt sl p := by simp
-          omega
-        · exact hnot _ _ hl _ (by omega) (by omega) ha
-      · omega
+    rcases hc.cand_cand hcand with ⟨hi1, hil, hnt, hnot⟩ | hshort
+    · obtain ⟨j, hpj, hj, hw1, hw2⟩ := pos_strict L hlen p (i - 1) (by omega) hnt
+      refine Or.inl ⟨j, hpj, ?_, ?_⟩
+      · rw [hasb]; exact inLine_of_win L hlen p j i hpj hj (by omega) (by omega)
+      · intro j' h1 h2
+        rw [Bool.eq_false_iff]
+        intro hpm
+        obtain ⟨s, e, hm⟩ := (pmLine_iff hlt hc j').1 hpm
+        obtain ⟨hl, hse, hel⟩ := lift_match L hlen hc hG p j' h1 (by omega) hm
+        have W := window L hlen p j' h1 (by omega)
+        have hpo : offsetAt sl p ≤ offsetAt sl j' := off_mono sl h1
+        have hjj : offsetAt sl (j' + 1) ≤ offsetAt sl j := off_mono sl (by omega)
+        rcases W.next with hn | ⟨hn, hl2⟩
+        · rcases W.after with ha | ha
+          · have hl' : (buf.drop (offsetAt sl p)).length = buf.length - offsetAt sl p := by simp
+            omega
+          · exact hnot _ _ hl _ (by omega) (by omega) ha
+        · omega
+    · -- the end of the engine's match: the searcher judges the line, only "no matching line before it" is needed
+      rcases shortest_line (cfg := cfg) L hlen hlt hc hG p hp hshort with
+        ⟨j, s, hpj, hj, hin, _, _, _, hbefore⟩ | hend
+      · exact Or.inl ⟨j, hpj, hin, hbefore⟩
+      · exact Or.inr hend
 
 end
 end RgVerif.Searcher
